@@ -61,7 +61,22 @@ def tomtom_case(case, ctx):
     dall = numpy.sqrt(((Q[:, None, :] - T[:, :, None]) ** 2).sum(axis=0))
     degenerate = bool((dall.max(axis=0) - dall.min(axis=0)).min() < 1e-12)
     try:
-        res = TT.tomtom([q.copy() for q in Qs], [t.copy() for t in Ts], **kw)
+        Tl = [t.copy() for t in Ts]
+        Ql = [q.copy() for q in Qs]
+        if case.get("reuse_lists"):
+            # the same list objects were used for an earlier call with other motifs and then edited in place
+            Tl = [numpy.ascontiguousarray(numpy.roll(t, 1, axis=0)) for t in Ts]
+            Ql = [numpy.ascontiguousarray(numpy.roll(q, 1, axis=0)) for q in Qs]
+            try:
+                TT.tomtom(Ql, Tl, **kw)
+            except Exception:  # noqa: BLE001
+                pass
+            for i_, t_ in enumerate(Ts):
+                Tl[i_] = t_.copy()
+            for i_, q_ in enumerate(Qs):
+                Ql[i_] = q_.copy()
+            ctx.label("list_objects_reused_after_in_place_edit")
+        res = TT.tomtom(Ql, Tl, **kw)
     except Exception as e:  # noqa: BLE001
         if degenerate:
             raise Rejected() from e
@@ -205,6 +220,7 @@ def strategy(draw):
         case["self_in_targets"] = draw(st.integers(0, nQ - 1))
     if case["rc"] and draw(st.integers(0, 3)) == 0:
         case["rc_metamorphic"] = True
+    case["reuse_lists"] = draw(st.integers(0, 3)) == 0
     return case
 
 
